@@ -1,4 +1,5 @@
 import TLVerif.Codec.TL1RoundTrip
+import TLVerif.Codec.TL1Normal
 import TLVerif.Codec.TL1Example
 /-!
 # C01 — TL1 round trip
@@ -67,6 +68,31 @@ theorem tl1_roundtrip_partial_exists (cfg : Cfg) (d : Desc) (hrt : d.rtOk = true
     ∀ rest, ∃ v', readTL1 cfg d fuel ty bare params (bs ++ rest) = .ok (v', rest) ∧
       writeTL1 d fuel ty bare params v' = .ok bs :=
   fun rest => ⟨v, tl1_roundtrip_partial cfg d hrt hs fuel ty bare params v bs hn hw rest, hw⟩
+
+/-- `Normal` is exactly met by decoded values: on a reference-closed set without dictionaries and `bit`,
+whatever the reader returns is `Normal`. -/
+theorem tl1_read_normal_on (cfg : Cfg) (d : Desc) (S : Nat → Bool) (hcl : d.closed S = true)
+    (hnd : d.allOn S (fun i => !i.isDict) = true) (hnb : d.allOn S (fun i => !i.isBitPrim) = true)
+    (fuel ty : Nat) (bare : Bool) (params : List Nat) (bs : Bytes) (v : Val) (rest : Bytes)
+    (hS : S ty = true) (h : readTL1 cfg d fuel ty bare params bs = .ok (v, rest)) :
+    Normal d fuel ty bare params v :=
+  readTL1_normal cfg d S hcl hnb hnd fuel ty bare params bs v rest hS h
+
+/-- C01 ∘ C02: decoding is a bijection between accepted prefixes and `Normal` values — what was decoded from
+`pre ++ rest` is re-encoded as `pre` and decodes again to the same value in front of any other suffix. -/
+theorem tl1_decode_stable_on (cfg : Cfg) (d : Desc) (S : Nat → Bool) (hcl : d.closed S = true)
+    (hnd : d.allOn S (fun i => !i.isDict) = true) (hnb : d.allOn S (fun i => !i.isBitPrim) = true)
+    (hrt : d.allOn S (Inst.rtOk d) = true)
+    (hs : cfg.sanity = false ∨ d.allOn S (Inst.elemMin4 d) = true)
+    (fuel ty : Nat) (bare : Bool) (params : List Nat) (bs : Bytes) (v : Val) (rest : Bytes)
+    (hS : S ty = true) (h : readTL1 cfg d fuel ty bare params bs = .ok (v, rest)) :
+    ∃ pre, bs = pre ++ rest ∧ writeTL1 d fuel ty bare params v = .ok pre ∧
+      ∀ rest', readTL1 cfg d fuel ty bare params (pre ++ rest') = .ok (v, rest') := by
+  obtain ⟨pre, w, e, hw, r⟩ := readTL1_canonR ByteRel.eq cfg d S hcl hnb (Or.inl hnd) fuel _ _ _ _ _ _ hS h
+  have r' : w = pre := r
+  subst r'
+  have hn := tl1_read_normal_on cfg d S hcl hnd hnb fuel ty bare params bs v rest hS h
+  exact ⟨w, e, hw, tl1_roundtrip_partial_on cfg d S hcl hrt hs fuel ty bare params v w hS hn hw⟩
 
 /-- soundness of the guard: `minSize` is a lower bound of every successful encoding (any two fuels) -/
 theorem minSize_sound (d : Desc) (g fuel ty : Nat) (bare : Bool) (params : List Nat) (v : Val) (bs : Bytes)
